@@ -316,6 +316,7 @@ def roundtrip_cases(draw, adversarial=False):
         "header": draw(headers(adversarial)),
         "target": draw(st.sampled_from(TARGETS)),
         "fname": draw(FILE_NAMES),
+        "preexisting": draw(st.booleans()),
         **lay,
     }
     case["load"] = draw(load_args(case["dim"]))
@@ -387,6 +388,11 @@ def save(case, da, kwargs, tmp):
         save_xye(buf, da, **kwargs)
         return buf.getvalue(), buf
     path = os.path.join(tmp, case.get("fname", "out.xye"))
+    if case.get("preexisting") and t in ("str", "Path"):
+        # the path already holds an older, longer table: saving replaces it (a writer that appends
+        # for header='' would leave the old rows in front; seeded/C15-s8 after its CR side effect was gone)
+        with open(path, "w", encoding="utf-8") as f:
+            f.write("# an older file\n" + "".join(f"{i} {i} 1\n" for i in range(50)))
     if t == "str":
         save_xye(path, da, **kwargs)
     elif t == "Path":
@@ -430,6 +436,8 @@ def written_header_lines(case) -> int:
 def classify(case, x, y, v):
     n = case["n"]
     labs = ["target:" + case["target"], "mode:" + case["mode"], f"ncoords:{len(case['coords'])}"]
+    if case.get("preexisting") and case["target"] in ("str", "Path"):
+        labs.append("path-held-an-older-file")
     if not case["target"].startswith("StringIO"):
         fn = case.get("fname", "out.xye")
         labs.append("fname:" + (".xye" if fn.endswith(".xye") else "no-suffix" if "." not in fn.lstrip(".") else "other-suffix"))
